@@ -184,6 +184,14 @@ Init ==
 ExpRet(op, S, res) ==
   IF op.a = "GetMedium" /\ IsModel(S.m[op.s]) THEN [ids |-> {}, n |-> 0, med |-> MediumOf(S.m[op.s])]
   ELSE [ids |-> res.ret.ids, n |-> res.ret.n, med |-> [r \in RxU |-> Missing]]
+ArithDiffers(ev, op, S) ==
+  /\ op.a = "RxnArith" /\ IsModel(S.m[op.s]) /\ op.r \in S.m[op.s].rxns /\ op.q \in S.m[op.s].rxns
+  /\ LET e == ArithResult(S.m[op.s], op.kind, op.r, op.q, op.k) a == ev.ret.ar IN
+     \/ ~a.detached
+     \/ \E m \in MetU : a.S[m] # e.S[m]
+     \/ a.lb # e.lb \/ a.ub # e.ub
+     \/ a.tt # TT(e.rule)
+     \/ SeqSet(a.genes) # GenesOf(e.rule)
 RetDiffers(ev, er) ==
   \/ ev.ret.x # ev.ret.x2          \* two identical calls of an analysis: identical uniquely defined outputs
   \/ SeqSet(ev.ret.ids) # er.ids
@@ -207,6 +215,7 @@ Next ==
          diffs == IF compareState
                   THEN UNION {SlotTag(s, SlotDiff(ev.obs[s], E.m[s], Len(E.ctx[s]), E.helper[s])) : s \in Slots}
                        \cup (IF res.raises = "none" /\ RetDiffers(ev, ExpRet(op, st, res)) THEN {"ret"} ELSE {})
+                       \cup (IF res.raises = "none" /\ ArithDiffers(ev, op, st) THEN {"arith"} ELSE {})
                   ELSE IF unexpectedRaise THEN {"raises"} ELSE {}
          nowBad == UNION {SlotTag(s, InvNames(ev.obs[s], E.helper[s])) : s \in Slots}
          os == IF "s" \in DOMAIN op THEN op.s ELSE 1
